@@ -19,6 +19,7 @@ import BufrModel.Drv.TableDefOp
 import BufrModel.Drv.FlatOp
 import BufrModel.Drv.LinksOp
 import BufrModel.Drv.ViewOp
+import BufrModel.Drv.StreamOp
 open Lean Bufr.Drv
 
 /-- stateless operations: one line per op -/
@@ -63,6 +64,7 @@ def statefulOps : List (String × (DrvState → Json → J (DrvState × Json))) 
   ("nested-json", opNestedJson) ::
   ("to-flat", opToFlat) ::
   ("views", opViews) ::
+  ("scan", opScan) ::
   []
 
 def dispatch (st : DrvState) (j : Json) : J (DrvState × Json) := do
